@@ -198,8 +198,21 @@ class Counters:
             mon.register_callback(self.tool, E.PY_UNWIND, on_unwind)
             ev |= E.RAISE | E.EXCEPTION_HANDLED | E.PY_UNWIND
         mon.set_events(self.tool, ev)
+        self._events = ev
         self.on = True
         return True
+
+    def pause(self):
+        """switch the callbacks off (used by the per-case alarm: an exception raised by a signal handler while one of these
+        callbacks is running is lost, and in a recursion storm the interpreter is nearly always inside one)"""
+        if self.tool is not None and self.on:
+            sys.monitoring.set_events(self.tool, 0)
+            self.on = False
+
+    def resume(self):
+        if self.tool is not None and not self.on and getattr(self, "_events", 0):
+            sys.monitoring.set_events(self.tool, self._events)
+            self.on = True
 
     def snapshot(self):
         return {
